@@ -128,7 +128,9 @@ class FilesystemLoader(Loader):
         try:
             # walk the path upwards to check for dynamic import
             for x in reversed(range(len(paths) + 1)):
-                path = os.sep.join(paths[0:x])
+                # NOTE: the first component of an absolute path is empty, so a
+                # one-component slice denotes the filesystem root itself.
+                path = os.sep.join(paths[0:x]) or (os.sep if x else "")
                 if module in os.listdir(path):
                     spec = spec_from_file_location(
                         name, os.path.join(path, module)
